@@ -92,7 +92,7 @@ PROPS = {
     ),
     'C02': dict(
         title='Every spelling of a program parses to the same syntax tree',
-        verus=['tables', 'parser_stmts', 'parser_core', 'parser_exprs', 'parser_poetic', 'parser_names'], kani=[],
+        verus=['tables', 'parser_stmts', 'parser_core', 'parser_exprs', 'parser_poetic', 'parser_names', 'lexer'], kani=[],
         technique=V + ' — PARTIAL: get_unary/binary/mutation_operator, get_rounding_direction, is_literal_word, Block::new '
                       'against reference tables; statement level of the grammar: the dispatch table (starting token -> statement '
                       'kind) and each statement parser against the sequence of sub-parser calls, required and optional words and '
@@ -170,11 +170,12 @@ PROPS = {
     ),
     'C15': dict(
         title='Renaming variables and re-casing names or keywords never changes behaviour',
-        verus=['sym_table', 'env', 'parser_names'], kani=[],
+        verus=['sym_table', 'env', 'parser_names', 'lexer'], kani=[],
         technique=V + ' — PARTIAL (the per-call ingredient only): names are compared without regard to letter case on EVERY symbol-table '
                       'path — lookup, mutable lookup and insertion all address the entry under the case-folded key (generic HashMap impl '
                       'and the BTreeMap impl for proper names), one map per kind of name and the kind of the name alone picks the map, '
-                      'for all three kinds in variable, parameter and function position (SymTable / Environment functions). The property '
+                      'for all three kinds in variable, parameter and function position (SymTable / Environment functions); keywords are looked up '
+                      'under the lower-cased word (match_keyword, also for a stem after its suffix was stripped: find_word_type). The property '
                       'itself is a relation between the runs of TWO programs (original and renamed / re-cased): no function contract can '
                       'state it, and it is not decided',
         level_note='partial: to_lowercase itself (Unicode content, idempotence, injectivity on distinct spellings) is uninterpreted; '
